@@ -37,6 +37,11 @@ computation of CPython agrees for every `1 ≤ m < 2^29` (notes/translator.md). 
 def ceilLog2 (m : Int) : Except Err Int :=
   if m ≤ 0 then .error .valueError else .ok (clog2 m.toNat : Nat)
 
+/-- the exact integer square root, as an instance of the ABSTRACT call `int(sqrt(a))` of the translated code
+(`math.sqrt` of a negative number is a ValueError).  CPython's float computation agrees as long as `a < 2^52`. -/
+def isqrt (a : Int) : Except Err Int :=
+  if a < 0 then .error .valueError else .ok (Nat.sqrt a.toNat : Nat)
+
 /-- `min(a, b)`, `max(a, b)` on integers -/
 def min2 (a b : Int) : Int := if b < a then b else a
 def max2 (a b : Int) : Int := if b > a then b else a
